@@ -255,6 +255,10 @@ def _install():
     # ---- combinators
     _reg("zip", "any", lambda c: A(c.source("num", "other")))
     _reg("zip_with_iterable", "any", lambda c: A([10, 20]))
+    _reg("zip_with_list", "any", lambda c: A([10, 20, 30]))
+    _reg("single_or_default_async", "any", lambda c: A(c.coin(), 9))
+    _reg("to_marbles", "any", lambda c: A(10))
+    _reg("tap", "any", lambda c: A(c.cb(lambda v: None), c.cb(lambda e: None, obs=True), c.cb(lambda: None, obs=True)))
     _reg("combine_latest", "any", lambda c: A(c.source("num", "other")))
     _reg("with_latest_from", "any", lambda c: A(c.source("num", "other")))
     _reg("fork_join", "any", lambda c: A(c.source("num", "other")))
